@@ -63,8 +63,8 @@ type frame struct {
 	caller           *frame
 	fn               *ssa.Function
 	block, prevBlock *ssa.BasicBlock
-	env              []value            // dynamic values of SSA variables, indexed by slots
-	slots            map[ssa.Value]int  // per-function numbering of SSA values (shared, read-only)
+	env              []value           // dynamic values of SSA variables, indexed by slots
+	slots            map[ssa.Value]int // per-function numbering of SSA values (shared, read-only)
 	locals           []value
 	defers           *deferred
 	result           value
@@ -74,6 +74,7 @@ type frame struct {
 	fileOverride     string  // file name reported by the runtime.Caller stub
 	callpos          token.Pos
 	goexit           bool // synthetic root of a spawned goroutine (stands for runtime.goexit)
+	trunner          bool // synthetic root standing for testing.tRunner (a sub-test body, vxrt.RunAsSubtest)
 }
 
 func (fr *frame) get(key ssa.Value) value {
@@ -585,7 +586,7 @@ func callSSA(i *interpreter, caller *frame, callpos token.Pos, fn *ssa.Function,
 			}
 			i.abort("no code for function %s (no intrinsic registered)", name)
 		}
-		if p := fn.Pkg; p != nil && i.eng.stubbedPkg(p.Pkg.Path()) && !i.eng.allowFn[name] {
+		if p := fn.Pkg; p != nil && i.eng.stubbedPkg(p.Pkg.Path()) && !i.eng.allowFn[name] && !i.eng.allowedFile(fn) {
 			i.abort("call into stubbed package without intrinsic: %s", name)
 		}
 	}
@@ -693,6 +694,9 @@ func doRecover(caller *frame) value {
 	// "defer f() -> g() -> recover()".
 	if caller != nil && !caller.panicking &&
 		caller.caller != nil && caller.caller.panicking {
+		if _, isExit := caller.caller.panic.(goexitSignal); isExit {
+			return iface{} // runtime.Goexit cannot be recovered
+		}
 		caller.caller.panicking = false
 		p := caller.caller.panic
 		caller.caller.panic = nil
